@@ -129,6 +129,16 @@ def check(repo: Repo) -> Result:
     u12 = {norm(n.targets[0]): norm(n.value) for n in walk_no_nested(fn.node) if isinstance(n, ast.Assign) and norm(n.targets[0]) in ("u1", "u2")}
     ok = prod == ["u1 * u2"] and u12 == {"u1": "_create_unit_from_factor(pair[0], registry)", "u2": "_create_unit_from_factor(pair[1], registry)"}
     res.check(ok, "pair-product", fn.where(), "prod is the product of the units of exactly the two factors that are removed", found=(prod, u12), rid=r4)
+    # the helpers behind simplify() are evaluated against the registry's *current* table (no identity-keyed memo)
+    from rules import memo_rules
+
+    reach = memo_rules.reachable_functions(repo, UO, ["Unit.simplify", "_cancel_mul"], depth=3)
+    n_m = 0
+    for key, ok, where, msg, exp, found in memo_rules.cached_identity_params(repo, only_functions=reach):
+        n_m += 1
+        res.check(ok, "simplify-helper:" + key, where, msg + " - simplify()/as_coeff_unit() would then fold in the scale a symbol had before the edit, and the simplified form no longer denotes the same unit", exp, found, rid=r4)
+    if not n_m:
+        res.ok("simplify-helpers-not-memoised-by-registry-identity", r4)
     cf = uo.func("_create_unit_from_factor")
     rets = [norm(n.value) for n in walk_no_nested(cf.node) if isinstance(n, ast.Return)]
     res.check(rets == ["Unit(base, f[0], f[2], f[1], registry, f[3]) ** exp"], "factor-unit", cf.where(), "a factor's unit is the registry row of its base raised to the factor's own exponent", found=rets, rid=r4)
